@@ -463,6 +463,8 @@ def to_arr(x):
             # mixture of scalars and 0-d/1-elem arrays
             items = [e.get(*([0] * e.ndim)) if isinstance(e, ArrBase) else e for e in items]
         lst = list(items)
+        if any(isinstance(e, str) for e in lst):
+            return Arr((len(lst),), lambda i: select(lst, i), 'str')
         dts = set(_dtype_of(e) for e in lst)
         dt = 'real' if 'real' in dts else ('int' if 'int' in dts else 'bool')
         return Arr((len(lst),), lambda i: select(lst, i), dt)
@@ -488,7 +490,7 @@ def elementwise(f, *xs, **kw):
     if not any(isinstance(x, ArrBase) for x in xs):
         return f(*xs)
     for x in xs:
-        if not isinstance(x, ArrBase) and not isinstance(x, SV) and not is_conc(x):
+        if not isinstance(x, ArrBase) and not isinstance(x, SV) and not is_conc(x) and not isinstance(x, str):
             return NotImplemented
     shape = bshape(*xs)
     fs = [as_fn(x, shape) for x in xs]
@@ -1013,7 +1015,13 @@ class _NP(object):
 
     def where(self, c, a=None, b=None):
         if a is None:
-            raise Unsupported('np.where(cond) index form')
+            c = to_arr(c)
+            if c.ndim == 1 and dim_conc(c.shape[0]):
+                vals = [c.get(i) for i in range(c.shape[0])]
+                if all(isinstance(_generic(v), (bool, int)) for v in vals):
+                    idx = [i for i, v in enumerate(vals) if v]
+                    return (Arr((len(idx),), lambda i: select(idx, i), 'int'),)
+            raise Unsupported('np.where(cond) index form on symbolic condition')
         return elementwise(ite, c, a, b)
 
     def clip(self, x, lo, hi):
